@@ -1190,6 +1190,14 @@ func (x *Exec) mapHooksText() {
 						}
 						continue
 					}
+					if h.Kind == "default" {
+						// the default branch of a non-blocking select: "nothing was ready" was observed
+						if sel, ok := in.(*ssa.Select); ok && !sel.Blocking {
+							x.hooksAt[in] = append(x.hooksAt[in], h)
+							h.Used++
+						}
+						continue
+					}
 					if h.Kind == "recv" || h.Kind == "send" {
 						if sel, ok := in.(*ssa.Select); ok {
 							for _, s := range sel.States {
